@@ -13,6 +13,7 @@ import (
 	"regexp"
 	"regexp/syntax"
 	"sort"
+	"strconv"
 	"strings"
 
 	"golang.org/x/tools/go/ssa"
@@ -342,7 +343,31 @@ func (g *genModel) builderExpr(bld *ssa.Alloc, end *ssa.Call) ([]tmplPart, error
 		byt  bool
 	}
 	var emits []emit
+	fmtArgs := map[*ssa.Call][]strPart{} // fmt.Fprintf(&b, "const format", args…) expanded
 	for _, r := range *bld.Referrers() {
+		if mi, isMI := r.(*ssa.MakeInterface); isMI {
+			// the builder as an io.Writer: fmt.Fprintf(&b, format, args…) with a constant format of %s / %[n]s verbs
+			for _, rr := range *mi.Referrers() {
+				fc, ok := rr.(*ssa.Call)
+				if !ok {
+					if _, isDbg := rr.(*ssa.DebugRef); isDbg {
+						continue
+					}
+					return nil, fmt.Errorf("%s: the builder is used as a writer in a way the template extraction does not model", g.p.pos(rr.Pos()))
+				}
+				callee := fc.Call.StaticCallee()
+				if callee == nil || callee.String() != "fmt.Fprintf" || len(fc.Call.Args) != 3 || fc.Call.Args[0] != ssa.Value(mi) {
+					return nil, fmt.Errorf("%s: the builder is handed to a writer function other than fmt.Fprintf", g.p.pos(fc.Pos()))
+				}
+				parts, err := g.fprintfParts(fc)
+				if err != nil {
+					return nil, err
+				}
+				fmtArgs[fc] = parts
+				emits = append(emits, emit{fc, nil, false})
+			}
+			continue
+		}
 		c, ok := r.(*ssa.Call)
 		if !ok {
 			if _, isDbg := r.(*ssa.DebugRef); isDbg {
@@ -365,6 +390,9 @@ func (g *genModel) builderExpr(bld *ssa.Alloc, end *ssa.Call) ([]tmplPart, error
 		}
 	}
 	partsOf := func(e emit) ([]strPart, error) {
+		if ps, ok := fmtArgs[e.call]; ok {
+			return ps, nil
+		}
 		if e.byt {
 			if k, ok := g.deref(e.arg).(*ssa.Const); ok && k.Value != nil && k.Value.Kind() == constant.Int {
 				return []strPart{{Const: string(rune(k.Int64()))}}, nil
@@ -458,6 +486,111 @@ func (g *genModel) builderExpr(bld *ssa.Alloc, end *ssa.Call) ([]tmplPart, error
 	for _, it := range items {
 		out = append(out, it.part...)
 	}
+	return out, nil
+}
+
+// fprintfParts expands fmt.Fprintf(w, format, args…): the format must be a constant using only %s, %v,
+// %[n]s, %[n]v and %%; every argument must be a string the template can express.
+func (g *genModel) fprintfParts(fc *ssa.Call) ([]strPart, error) {
+	format, ok := constString(g.deref(fc.Call.Args[1]))
+	if !ok {
+		return nil, fmt.Errorf("%s: Fprintf with a non-constant format", g.p.pos(fc.Pos()))
+	}
+	// the variadic arguments: a slice of a local [n]any whose slots hold MakeInterface(string)
+	var args [][]strPart
+	switch va := fc.Call.Args[2].(type) {
+	case *ssa.Const:
+		if !va.IsNil() {
+			return nil, fmt.Errorf("%s: Fprintf arguments not understood", g.p.pos(fc.Pos()))
+		}
+	case *ssa.Slice:
+		al, ok := va.X.(*ssa.Alloc)
+		if !ok {
+			return nil, fmt.Errorf("%s: Fprintf arguments are not a literal list", g.p.pos(fc.Pos()))
+		}
+		at, ok := al.Type().Underlying().(*types.Pointer).Elem().Underlying().(*types.Array)
+		if !ok {
+			return nil, fmt.Errorf("%s: Fprintf arguments are not a literal list", g.p.pos(fc.Pos()))
+		}
+		args = make([][]strPart, int(at.Len()))
+		for _, r := range *al.Referrers() {
+			ia, ok := r.(*ssa.IndexAddr)
+			if !ok {
+				continue
+			}
+			k, ok := ia.Index.(*ssa.Const)
+			if !ok {
+				return nil, fmt.Errorf("%s: Fprintf arguments are not a literal list", g.p.pos(fc.Pos()))
+			}
+			for _, rr := range *ia.Referrers() {
+				st, ok := rr.(*ssa.Store)
+				if !ok || st.Addr != ssa.Value(ia) {
+					continue
+				}
+				mi, ok := st.Val.(*ssa.MakeInterface)
+				if !ok || !isStringType(mi.X.Type()) {
+					return nil, fmt.Errorf("%s: a Fprintf argument is not a string", g.p.pos(fc.Pos()))
+				}
+				ps, err := g.strExpr(mi.X)
+				if err != nil {
+					return nil, err
+				}
+				args[int(k.Int64())] = ps
+			}
+		}
+	default:
+		return nil, fmt.Errorf("%s: Fprintf arguments not understood", g.p.pos(fc.Pos()))
+	}
+	var out []strPart
+	lit := ""
+	flush := func() {
+		if lit != "" {
+			out = append(out, strPart{Const: lit})
+			lit = ""
+		}
+	}
+	next := 0
+	for i := 0; i < len(format); i++ {
+		ch := format[i]
+		if ch != '%' {
+			lit += string(ch)
+			continue
+		}
+		i++
+		if i >= len(format) {
+			return nil, fmt.Errorf("%s: Fprintf format ends in %%", g.p.pos(fc.Pos()))
+		}
+		if format[i] == '%' {
+			lit += "%"
+			continue
+		}
+		idx := next
+		if format[i] == '[' {
+			j := strings.IndexByte(format[i:], ']')
+			if j < 0 {
+				return nil, fmt.Errorf("%s: malformed argument index in Fprintf format", g.p.pos(fc.Pos()))
+			}
+			n, err := strconv.Atoi(format[i+1 : i+j])
+			if err != nil || n < 1 {
+				return nil, fmt.Errorf("%s: malformed argument index in Fprintf format", g.p.pos(fc.Pos()))
+			}
+			idx = n - 1
+			i += j + 1
+			if i >= len(format) {
+				return nil, fmt.Errorf("%s: Fprintf format ends in an argument index", g.p.pos(fc.Pos()))
+			}
+		}
+		if format[i] != 's' && format[i] != 'v' {
+			return nil, fmt.Errorf("%s: Fprintf verb %%%c is not modelled", g.p.pos(fc.Pos()), format[i])
+		}
+		if idx >= len(args) || args[idx] == nil {
+			return nil, fmt.Errorf("%s: Fprintf verb refers to a missing argument", g.p.pos(fc.Pos()))
+		}
+		flush()
+		out = append(out, args[idx]...)
+		next = idx + 1
+	}
+	flush()
 	return out, nil
 }
 
